@@ -43,6 +43,8 @@ pub struct Profile {
     pub w_reserve: u32,
     pub w_roundtrip: u32,
     pub w_grow: u32,
+    /// number of Grow shapes in use (shape 7 = nodes created through the tree! macro; only in builds that have it)
+    pub grow_shapes: u8,
     /// bring a slot to the brink of a generation-counter width
     pub w_churn_to: u32,
     /// grow size classes: (weight, lo, hi)
@@ -90,6 +92,7 @@ impl Profile {
             w_reserve: 0,
             w_roundtrip: 0,
             w_grow: 2,
+            grow_shapes: 8,
             w_churn_to: 0,
             grow: GROW_STD,
             s_live: 50,
@@ -120,7 +123,8 @@ impl Profile {
                 p.name = "C02";
                 p.w_churn_to = 1;
                 p.deep.dei = true;
-                p.deep.dei_exh_bits = 8;
+                p.deep.dei_exh_bits = 6;
+                p.deep.dei_sampled = 4;
                 p.w_insert = 50;
                 p.s_rel = 60;
                 p.deep.pairs = true;
@@ -185,6 +189,7 @@ impl Profile {
             }
             "C08" => {
                 p.name = "C08";
+                p.w_grow = 4;
                 p.w_churn_to = 1;
                 p.w_set = 10;
                 p.w_itermut = 3;
@@ -259,6 +264,7 @@ impl Profile {
             }
             "C17" => {
                 p.name = "C17";
+                p.grow_shapes = 7; // the battery must be identical in builds without the macros feature
                 p.grow = GROW_C17;
                 p.w_grow = 3;
                 p.churn = CHURN_C17;
@@ -348,7 +354,7 @@ pub fn op_strategy(p: &Profile) -> BoxedStrategy<Op> {
     add(p.w_roundtrip, Just(Op::Roundtrip).boxed());
     {
         let g: Vec<(u32, BoxedStrategy<u32>)> = p.grow.iter().map(|&(w, lo, hi)| (w, (lo..=hi).boxed())).collect();
-        add(p.w_grow, (usel.clone(), proptest::strategy::Union::new_weighted(g), 0u8..7).prop_map(|(under, n, shape)| Op::Grow { under, n, shape }).boxed());
+        add(p.w_grow, (usel.clone(), proptest::strategy::Union::new_weighted(g), 0u8..p.grow_shapes).prop_map(|(under, n, shape)| Op::Grow { under, n, shape }).boxed());
         add(
             p.w_churn_to,
             (usel.clone(), prop_oneof![6 => Just(32_767u32), 2 => Just(127u32), 2 => Just(255u32), 1 => Just(257u32), 1 => Just(65_535u32)], 0u8..3).prop_map(|(x, limit, left)| Op::ChurnTo { x, limit, left }).boxed(),
